@@ -83,7 +83,7 @@ META = {
         "absolute trails (ALL: equal multisets, every trail followable in the input; FIRST: one planted trail, no group; DISABLE: no trail). distinct = (type, datum, mode); "
         "non-trivial = a fault below depth 1",
         cases=(8, 300), budget=(50, 420),
-        minimums={"quick": {"evaluations": 6000, "distinct_nontrivial": 3000, "faults_2": 800, "faults_3": 200, "fault_wrong-type": 1000, "fault_missing-key": 500,
+        minimums={"quick": {"evaluations": 6000, "distinct_nontrivial": 3000, "input_value_checks": 2400, "faults_2": 800, "faults_3": 200, "fault_wrong-type": 1000, "fault_missing-key": 500,
                             "fault_wrong-container": 500, "fault_extra-item": 100, "fault_unknown-key": 100, "fault_union": 100, "shape_model_custom_layout": 30}},
         assumptions=["missing keys of one dict node are expected as ONE NoRequiredFieldsLoadError at that node (likewise unknown keys under ExtraForbid); "
                      "a length / container fault makes its node a leaf; unions are leaves (one UnionLoadError at their trail)"],
@@ -211,7 +211,7 @@ META = {
         "per-kind limitations are capabilities (no constructor-time defaults for TypedDict / SQLAlchemy, pydantic's own validation). distinct = (logical model, recipe, "
         "input, kind); non-trivial = a kind other than the reference kind",
         cases=(40, 800), budget=(50, 420),
-        minimums={"quick": {"logical_models": 250, "loads": 4000, "bad_loads": 5000, "dumps": 1200, "converters": 1500, "distinct_nontrivial": 8000}},
+        minimums={"quick": {"logical_models": 250, "loads": 4000, "bad_loads": 5000, "dumps": 1200, "converters": 1500, "converters_with_unlinked_optional": 400, "distinct_nontrivial": 8000}},
         assumptions=["kinds are compared with each other, not with a reference model; a defect shared by all kinds is invisible here (C03/C08 cover it)"],
     ),
     "C18": _m(
